@@ -6,6 +6,7 @@ package models
 import (
 	"bytes"
 	"io"
+	"time"
 
 	"cosmossdk.io/log"
 	storetypes "cosmossdk.io/store/types"
@@ -370,6 +371,6 @@ func (m *MultiStore) Equal(o *MultiStore) bool {
 // NewContext builds an sdk.Context over a fresh MultiStore.
 func NewContext(height int64) (sdk.Context, *MultiStore) {
 	ms := NewMultiStore()
-	ctx := sdk.NewContext(ms, cmtproto.Header{Height: height, ChainID: "verif-chain"}, false, log.NewNopLogger())
+	ctx := sdk.NewContext(ms, cmtproto.Header{Height: height, ChainID: "verif-chain", Time: time.Unix(1_700_000_000, 0)}, false, log.NewNopLogger())
 	return ctx, ms
 }
